@@ -135,6 +135,28 @@ class Undecided(Exception):
     pass
 
 
+_STRUCTURAL = {";", "{", "}", "let", "=>", "fn", "loop", "while", "for", "in", "match", "if", "else", "return", "break", "continue", "|", "||", "mut", "move", "?"}
+
+
+def in_place_edit(old_norm, new_norm):
+    """True when the two normalised function texts differ only inside expressions: every changed token run is short and
+    contains no token that starts, ends or separates statements, blocks, bindings, closures or control flow"""
+    if not old_norm or not new_norm:
+        return False
+    import difflib
+    a, b = old_norm.split(" "), new_norm.split(" ")
+    sm = difflib.SequenceMatcher(None, a, b, autojunk=False)
+    total = 0
+    for tag, i1, i2, j1, j2 in sm.get_opcodes():
+        if tag == "equal":
+            continue
+        changed = a[i1:i2] + b[j1:j2]
+        total += len(changed)
+        if any(t in _STRUCTURAL for t in changed):
+            return False
+    return 0 < total <= 40
+
+
 def all_tags(b):
     tags = set(b.clauses.keys())
     for _, _, t in b.clause_lines:
@@ -304,8 +326,11 @@ def run_property(pid, tier, seed):
         baseline = set(bl["tags"])
         # functions whose proof relies on ghost blocks anchored inside the body AND whose text differs from the baseline:
         # a failed obligation there may be a displaced proof hint, so only a concrete failing input decides (like a degraded function)
+        # ... unless the change is an in-place edit inside expressions (no statement, block, binding, closure or control-flow token
+        # added, removed or changed): the ghost blocks then still sit between the same statements
         suspect = set(fid for fid in bl.get("mid_body_anchors", [])
-                      if fid in b.fns and hashlib.sha1(b.fns[fid]["norm"].encode()).hexdigest() != bl.get("fn_hash", {}).get(fid))
+                      if fid in b.fns and hashlib.sha1(b.fns[fid]["norm"].encode()).hexdigest() != bl.get("fn_hash", {}).get(fid)
+                      and not in_place_edit(bl.get("fn_norm", {}).get(fid), b.fns[fid]["norm"]))
         tags = all_tags(b)
         newtags = sorted(t for t in b.clauses if t not in baseline)
         if newtags:
@@ -707,7 +732,8 @@ def make_baseline():
         with open(os.path.join(VERIF, "baseline", "obligations.json"), "w") as f:
             json.dump({"tags": sorted(all_tags(b)), "verus_verified": res.verified,
                        "fn_hash": {fid: hashlib.sha1(f_["norm"].encode()).hexdigest() for fid, f_ in sorted(b.fns.items())},
-                       "mid_body_anchors": sorted(fid for fid, c in b.contracts.items() if c.ghosts)}, f, indent=1)
+                       "mid_body_anchors": sorted(fid for fid, c in b.contracts.items() if c.ghosts),
+                       "fn_norm": {fid: b.fns[fid]["norm"] for fid, c in sorted(b.contracts.items()) if c.ghosts and fid in b.fns}}, f, indent=1)
         log(f"baseline written: {len(all_tags(b))} tags, {res.verified} verus items verified")
         return 0
     finally:
